@@ -58,6 +58,21 @@ CHECKS.update({
                   "identity in the model, checked on the implementation only.",
              tech="Coq proof (operator== model <-> value equality of denoted graphs) + differential correspondence on history pairs", ref="DESIGN.md §6 C06"),
 })
+CHECKS.update({
+ 'C04': dict(text="Theorem C04_directed_multigraph_consistent (Coq): after any valid history on the DirectedMultigraph model getEdgeMultiplicity equals the spec function (+k, -min(k,cur), "
+                  ":=k, bulk removals zero), is 0 exactly when hasEdge is false, getEdgeNumber = #pairs, getTotalEdgeNumber = sum of multiplicities; C04_directed_invariant: total = sum of "
+                  "stored multiplicities in every reachable state. PARTIAL: the UndirectedMultigraph half is stated (C04_undirected_full_statement) but not proved; both classes, their "
+                  "degrees and matrices are tied to /repo and to the executable spec oracle by the correspondence check on seeded histories with multiplicity arguments around the current value.",
+             note=TB + "Multiplicities are unbounded Z in the model (no 2^32 wrap); degrees/adjacency matrix of the multigraphs and everything undirected: correspondence + spec oracle, no theorem.",
+             tech="Coq refinement proof (directed multigraph model -> multiplicity-function spec) + differential correspondence for both classes", ref="DESIGN.md §6 C04"),
+ 'C05': dict(text="Theorem C05_directed_weighted_consistent (Coq): after any valid history on the DirectedWeightedGraph model hasEdge/getEdgeWeight (throwing or not) answer from the spec "
+                  "(weight at creation or last setEdgeWeight, addEdge on a present edge is a no-op, missing edge -> invalid_argument or 0), getEdgeNumber = #edges and getTotalWeight = "
+                  "sum of present weights, in exact arithmetic. PARTIAL: the UndirectedWeightedGraph half is stated (C05_undirected_full_statement) but not proved, and floating-point "
+                  "rounding ('within accumulated rounding error otherwise') is not modelled. Both classes incl. getWeightMatrix are tied to /repo and the spec oracle by the correspondence "
+                  "check with exactly representable weights k/4 (negative, zero, positive).",
+             note=TB + "Weights are exact integers in units of 1/4; long double accumulation and rounding are outside the model (DESIGN.md §10).",
+             tech="Coq refinement proof (directed weighted model -> weight-function spec, exact arithmetic) + differential correspondence for both classes", ref="DESIGN.md §6 C05"),
+})
 NA = {'C20': "about the C++ type checker/linker accepting client programs (template instantiation, overload resolution, ODR): no executable Gallina model has a counterpart, so machine-checked proof cannot apply (DESIGN.md §6 C20)"}
 def main():
     props = [json.loads(l)['id'] for l in open(os.path.join(ROOT, 'properties.jsonl'))]
